@@ -92,7 +92,7 @@ class State(_train.Listener):
 
         def _compute_grads(self, X, y_pred, gradient):
             if st.depth == 0 and st.spec is not None:
-                st.ctx.guard(st.check_batch, "check_batch")(self, np.array(y_pred, copy=True), np.array(gradient, copy=True))
+                st.ctx.guard(st.check_batch, "check_batch")(self, np.array(y_pred, copy=True), np.array(gradient, copy=True), X)
             st.depth += 1
             try:
                 return orig(self, X, y_pred, gradient)
@@ -101,19 +101,34 @@ class State(_train.Listener):
         _compute_grads.__wrapped__ = orig
         return _compute_grads
 
-    def check_batch(self, model, y_pred, received):
+    def check_batch(self, model, y_pred, received, Xbatch=None):
         ctx = self.ctx
         ml, cl, factor = self.spec
         lb = self.tap.last_batch
         if lb is None or lb[0] is not model or self.gem_grad is None:
             ctx.count("batch_without_context")
             return
-        ids = lb[5]
+        # consumer side: which samples are the rows that this back-propagation is really working on
+        ids = None
+        Xfull = self.tap.current_X()
+        from gemclus.nonparametric._categorical_models import CategoricalModel
+        if isinstance(model, CategoricalModel):
+            ids = list(range(len(y_pred)))
+        elif Xbatch is not None and Xfull is not None:
+            try:
+                dec = _train.decode_ids(Xfull, Xbatch)
+                ids = None if dec is None else [int(x) for x in dec]
+                if dec is None:
+                    ctx.violation("constraint-gradient", "training-rows-not-from-data", observed={"rows": Xbatch}, expected="rows of X")
+                    return
+            except _train.AmbiguousRows:
+                ctx.count("ambiguous_rows_fallback_to_yielded_ids")
         if ids is None:
-            # nonparametric models see the whole data in order; decorated ones always come with ids
-            ctx.count("batch_without_ids")
-            return
-        ids = [int(x) for x in ids]
+            ids = lb[5]
+            if ids is None:
+                ctx.count("batch_without_ids")
+                return
+            ids = [int(x) for x in ids]
         ctx.count("batches_checked")
         ctx.count("evaluations")
         # recorded indices must be the true sample ids of the rows, in batch order
